@@ -735,7 +735,19 @@ pub fn run_c13(o: &mut Out, dir: &str, seed: u64, thorough: bool, replay: Option
             }
         }
     }
+    // lists just at and just above the decoder's up-front reservation cap (2 MiB / size_of::<T>() elements): the
+    // cap bounds the reservation only, never the number of elements decoded
+    for (name, cap, elem) in long_list_shapes() { for n in [cap, cap + 1] {
+        let mut b = (n as u32).to_be_bytes().to_vec(); for _ in 0..n { b.extend_from_slice(&elem); }
+        raw.push(format!("C13 rt {} {}", name, hx(&b)));
+    }}
     run_isolated(o, dir, &raw);
+}
+
+/// (registry name, reservation cap in elements, encoding of the smallest element)
+fn long_list_shapes() -> Vec<(&'static str, usize, Vec<u8>)> {
+    vec![("Vec<Vec<u32>>", 2 * 1024 * 1024 / std::mem::size_of::<Vec<u32>>(), vec![0, 0, 0, 0]),
+         ("Vec<(u16,String)>", 2 * 1024 * 1024 / std::mem::size_of::<(u16, String)>(), vec![0, 0, 0, 0, 0, 0])]
 }
 
 pub fn run_c14(o: &mut Out, dir: &str, seed: u64, thorough: bool, replay: Option<Vec<String>>) {
@@ -811,6 +823,25 @@ pub fn run_c14(o: &mut Out, dir: &str, seed: u64, thorough: bool, replay: Option
             }
         }
     }
+    // version-2 ProofOfSpace with every combination of the two pool targets (exactly one is required), both decoders
+    {
+        let g1 = chia_bls::SecretKey::from_seed(&[1u8; 32]).public_key().to_bytes();
+        for has_pk in [false, true] { for has_contract in [false, true] { for proof_len in [0usize, 16] {
+            let mut b = vec![7u8; 32];
+            if has_pk { b.push(1); b.extend_from_slice(&g1); } else { b.push(0); }
+            b.push(0x02 | has_contract as u8);
+            if has_contract { b.extend_from_slice(&[9u8; 32]); }
+            b.extend_from_slice(&g1);
+            b.extend_from_slice(&[0, 1, 2, 3]);                       // plot_index u16, meta_group, strength
+            b.extend_from_slice(&(proof_len as u32).to_be_bytes()); b.extend(std::iter::repeat(0u8).take(proof_len));
+            push(&mut raw, "ProofOfSpace", &b);
+        }}}
+    }
+    // lists just at and just above the reservation cap
+    for (name, cap, elem) in long_list_shapes() { for n in [cap, cap + 1] {
+        let mut b = (n as u32).to_be_bytes().to_vec(); for _ in 0..n { b.extend_from_slice(&elem); }
+        push(&mut raw, name, &b);
+    }}
     run_isolated(o, dir, &raw);
     // the constants of the allocation classes, for the record
     let mut s = String::from("# C14 allocation classes: small iff peak <= K * input_len + slack\n");
